@@ -503,7 +503,77 @@ def ba_methods(it, ba, a, inst):
             return K('1' in ba.pattern())
         return Term('any', BAref(ba.copy()))
 
-    table = {'append': m_append, 'extend': m_extend, 'fill': m_fill, 'tobytes': m_tobytes, 'to01': m_to01,
+    def _needle(x):
+        if isinstance(x, K) and isinstance(x.v, (int, bool)):
+            if x.v not in (0, 1):
+                raise RaiseEx('ValueError', 'bit must be 0 or 1')
+            return '1' if x.v else '0'
+        nb = to_ba(it, x, 'search pattern')
+        if not nb.known():
+            raise Fail('bitarray search for a pattern with unknown bits')
+        return nb.pattern()
+
+    def _search(args, kw, what):
+        pat = ba.pattern()
+        sub = _needle(args[0])
+        lo = _int(args[1], 'start') if len(args) > 1 and not (isinstance(args[1], K) and args[1].v is None) else 0
+        hi = _int(args[2], 'stop') if len(args) > 2 and not (isinstance(args[2], K) and args[2].v is None) else len(pat)
+        right = 'right' in kw and it.truth(kw['right'])
+        n_ = len(pat)
+        lo = max(0, lo + n_) if lo < 0 else min(lo, n_)
+        hi = max(0, hi + n_) if hi < 0 else min(hi, n_)
+        positions = range(lo, hi - len(sub) + 1)
+        for p_ in (reversed(positions) if right else positions):
+            window = pat[p_:p_ + len(sub)]
+            if all(c == d for c, d in zip(window, sub)):
+                return p_
+            if all(c == d or c == '?' for c, d in zip(window, sub)):
+                raise Fail(f'bitarray.{what} over unknown bits: whether the pattern occurs at position {p_} is not decided')
+        return -1
+
+    def m_find(it, args, kw, node):
+        return K(_search(args, kw, 'find'))
+
+    def m_index(it, args, kw, node):
+        r = _search(args, kw, 'index')
+        if r < 0:
+            raise RaiseEx('ValueError', f'{vrepr(args[0])} not in bitarray')
+        return K(r)
+
+    def m_all(it, args, kw, node):
+        if '0' in ba.pattern():
+            return K(False)
+        if ba.known():
+            return K(True)
+        return Term('all', BAref(ba.copy()))
+
+    def m_tolist(it, args, kw, node):
+        return ListV([ba.bit(i) for i in range(len(ba))])
+
+    def m_clear(it, args, kw, node):
+        ba.segs = []
+        return K(None)
+
+    def m_reverse(it, args, kw, node):
+        if not ba.known():
+            raise Fail('bitarray.reverse over unknown bits')
+        pat = ba.pattern()[::-1]
+        ba.segs = []
+        if pat:
+            ba._push(Seg(len(pat), 'k', pat))
+        return K(None)
+
+    def m_invert(it, args, kw, node):
+        if not ba.known() or args:
+            raise Fail('bitarray.invert over unknown bits / of one position')
+        pat = ''.join('1' if c == '0' else '0' for c in ba.pattern())
+        ba.segs = []
+        if pat:
+            ba._push(Seg(len(pat), 'k', pat))
+        return K(None)
+
+    table = {'find': m_find, 'index': m_index, 'all': m_all, 'tolist': m_tolist, 'clear': m_clear, 'reverse': m_reverse, 'invert': m_invert,
+             'append': m_append, 'extend': m_extend, 'fill': m_fill, 'tobytes': m_tobytes, 'to01': m_to01,
              'frombytes': m_frombytes, 'copy': m_copy, 'pop': m_pop, '__len__': m_len, 'count': m_count,
              '__delitem__': m_delitem, '__init__': m_init, 'any': m_any, 'setall': m_setall}
     if a in table:
@@ -518,7 +588,18 @@ def ba_methods(it, ba, a, inst):
                 r.native = to_ba(it, args[1], 'constructor argument')
             return r
         return Native(m_new, 'bitarray.__new__')
+    if a == 'endian':
+        return Native(lambda it_, args, kw, node: K('big'), 'bitarray.endian')
+    if a in _BITARRAY_API:
+        # a real member of the library class the model does not cover: the analysis stops - this is not an AttributeError of the code
+        raise Fail(f'bitarray.{a} is not modelled')
     return None
+
+
+_BITARRAY_API = {'buffer_info', 'bytereverse', 'decode', 'encode', 'fromfile', 'insert', 'iterdecode', 'itersearch', 'search', 'pack', 'remove',
+                 'sort', 'tofile', 'unpack', 'nbytes', 'padbits', 'readonly', '__iadd__', '__imul__', '__mul__', '__rmul__', '__and__', '__or__',
+                 '__xor__', '__invert__', '__lshift__', '__rshift__', '__iand__', '__ior__', '__ixor__', '__ilshift__', '__irshift__',
+                 '__reversed__', '__copy__', '__deepcopy__', '__reduce__', '__sizeof__', '__buffer__'}
 
 
 def native_attr(it, nat, a, inst):
